@@ -137,7 +137,7 @@ GD_RULES = [
     (r"!nodeQueue_?\.empty\(\)", "!NODEQ_EMPTY()", 0),
     (r"dist = (?:nbhQueue|nearQueue_)\.top\(\)\.first;", "dist = nbh_top;", 0),
     (r"(?:nodeDist|node) = nodeQueue_?\.top\(\);", "node = NODEQ_TOP(); last_top = node;", 0), (r"nodeQueue_?\.pop\(\);", "NODEQ_POP();", 0),
-    (r"(?:nbhQueue|nearQueue_)\.size\(\) == k", "nbh_size == k", 0),
+    (r"(?:nbhQueue|nearQueue_)\.size\(\)", "nbh_size", 0),
     (r"nodeDist\.second|node->distToPivot_", "N_dist[node]", 0), (r"(?:nodeDist\.first|node)->maxRadius_", "N_maxRadius[node]", 0), (r"(?:nodeDist\.first|node)->minRadius_", "N_minRadius[node]", 0),
     (r"(?:nodeDist\.first|node)->nearestK\([^;]*\);", "EXPAND_K(node);", 0), (r"(?:nodeDist\.first|node)->nearestR\([^;]*\);", "EXPAND_R(node);", 0),
 ]
